@@ -234,7 +234,7 @@ func c18Check(root string, doc []byte) (res fw.Result) {
 			os.Symlink("/", filepath.Join(d, "slash"))
 			os.WriteFile(filepath.Join(d, "v2", "m", "main.tf"), []byte("m"), 0644)
 		}
-		for _, tail := range []string{"", "x", "x/y.tf", "./x/../z", "a b/c#d", "%41/ü", "deep/er/still/deeper.tf", "x/", "current/m/main.tf", "current", "up/x.tf", "slash/etc/passwd", "v2/m/main.tf"} {
+		for _, tail := range []string{"", "x", "x/y.tf", "./x/../z", "a b/c#d", "%41/ü", "deep/er/still/deeper.tf", "x/", "current/m/main.tf", "current", "up/x.tf", "slash/etc/passwd", "v2/m/main.tf", "modules\\net.tf", "back\\slash/x.tf"} {
 			p := filepath.Join(d, tail)
 			if tail == "./x/../z" || tail == "x/" {
 				p = d + "/" + tail
@@ -270,6 +270,15 @@ func c18Check(root string, doc []byte) (res fw.Result) {
 	for d := range dirs {
 		// e.g. /x/bundle-rootPKGDIR/sub/f: shares the root as a string prefix only
 		foreign = append(foreign, absRoot+filepath.Base(d)+"/sub/f", absRoot+filepath.Base(d))
+		// a back-slash is an ordinary character of a name, and names differing
+		// in the case of a letter are different names
+		foreign = append(foreign, d+"\\main.tf")
+		base := filepath.Base(d)
+		for _, other := range []string{strings.ToUpper(base), strings.ToLower(base)} {
+			if other != base {
+				foreign = append(foreign, filepath.Join(filepath.Dir(d), other, "x.tf"))
+			}
+		}
 	}
 	mf := filepath.Join(absRoot, "terraform-sources.json")
 	if !dirs[mf] {
@@ -336,7 +345,7 @@ func c18Real(env *fw.Env) [][]byte {
 func init() {
 	fieldwise := &fw.Phase{
 		Name: "fieldwise-local-dir-names", Exhaustive: true,
-		N: func(string) int { return len(gen.LocalDirAlphabet) * 3 },
+		N: func(string) int { return len(gen.LocalDirAlphabet) * 4 },
 		Run: func(env *fw.Env, idx int) fw.Result {
 			m, desc := gen.FieldwiseManifest(idx)
 			r := c18Check(c18Root(env), m.JSON())
